@@ -1146,6 +1146,20 @@ def open_file(it, args, kwargs):
         else:
             it.fs.write(pt, "t", z3.StringVal(""))
         fh.f["written"] = VBytes(b"") if "b" in m else VStr("")
+    elif "a" in m:
+        # append: the file keeps whatever it already holds (ghost FS content on entry is arbitrary), writes go after it
+        dir_ok = z3.Bool(it.fresh_name("dir_exists"))
+        if not it.branch(dir_ok):
+            it.raise_(FileNotFoundError, "No such file or directory (parent)")
+        it.trace.append(("open-a", pt))
+        if it.branch(it.fs.exists(pt)):
+            fh.f["written"] = fs_read(it, p, binary="b" in m)
+        else:
+            if "b" in m:
+                it.fs.write(pt, "b", z3.Empty(BSort))
+            else:
+                it.fs.write(pt, "t", z3.StringVal(""))
+            fh.f["written"] = VBytes(b"") if "b" in m else VStr("")
     else:
         raise OutOfSubset(f"open mode {m}")
     return fh
